@@ -111,6 +111,66 @@ def run(res, tier, build_ok):
         elif want is not None and trip != want:
             res.violation("sense fields rc=%#x" % rc, "key/ASC/ASCQ reported %s, SPC positions hold %s" % (trip, want), {"sense": bytes(b).hex()})
         reqs.append(("sense " + hx(b), impl, want))
+    # ---- the same buffers as a target returns them: through SCSIDevice.execute / ISCSIDevice.execute (CHECK CONDITION),
+    #      the error the caller catches must report the SPC positions of exactly the buffer the target sent
+    sgio, iscsi = sys.modules["sgio"], sys.modules["iscsi"]
+    vos = virtos.VirtualOS()
+    vos.install()
+    vos.mknod("/dev/sgc08")
+    from pyscsi.pyscsi.scsi_cdb_testunitready import TestUnitReady
+    from lib import cmds
+    tur_op = cmds.opcode_sets()["spc"].TEST_UNIT_READY
+    sdev = SCSIDevice("/dev/sgc08", detect_replugged=False)
+    idev = ISCSIDevice("iscsi://h/iqn.t/0", "iqn.i")
+    cur = {"sense": None}
+    sgio.BACKEND = lambda f, cdb, do, di: (2, cur["sense"])
+    iscsi.BACKEND = lambda lun, task, do, di: (2, cur["sense"])
+    through = []
+    for n in range(8, 33):                      # fixed format, every honest length, and the same inside a 32/96-byte buffer
+        for rc in (0x70, 0x71):
+            b = bytearray(n)
+            b[0], b[2], b[7] = rc, 1 + rng.randrange(14), n - 8
+            if n > 12:
+                b[12] = 1 + rng.randrange(255)
+            if n > 13:
+                b[13] = 1 + rng.randrange(255)
+            through += [b, b + bytearray(max(0, 32 - n)), b + bytearray(96 - n)]
+    for n in (8, 12, 20, 32):                   # descriptor format
+        for rc in (0x72, 0x73):
+            b = bytearray(n)
+            b[0], b[1], b[2], b[3], b[7] = rc, 1 + rng.randrange(14), 1 + rng.randrange(255), 1 + rng.randrange(255), n - 8
+            through.append(b)
+    through += [bytearray(b) for b in rng.sample(bufs, min(len(bufs), 300))]
+    for b in through:
+        rc = b[0] & 0x7F
+        if rc in (0x70, 0x71):
+            want = ((b[2] & 15) if len(b) > 2 else 0, b[12] if len(b) > 12 else 0, b[13] if len(b) > 13 else 0)
+        elif rc in (0x72, 0x73):
+            want = ((b[1] & 15) if len(b) > 1 else 0, b[2] if len(b) > 2 else 0, b[3] if len(b) > 3 else 0)
+        else:
+            want = None
+        for kind, dev in (("sgio", sdev), ("iscsi", idev)):
+            cur["sense"] = bytearray(b)
+            res.count("sense delivered through " + kind)
+            res.cases += 1
+            try:
+                dev.execute(TestUnitReady(tur_op))
+                got = "returned"
+            except SCSICheckCondition as e:
+                try:
+                    str(e)
+                    got = (e.data.get("sense_key"), e.asc, e.ascq) if getattr(e, "asc", None) is not None and "sense_key" in e.data else None
+                except Exception as ex:
+                    got = "str raises " + type(ex).__name__
+            except Exception as ex:
+                got = "raises " + type(ex).__name__
+            if isinstance(got, str) or (want is not None and got != want):
+                res.violation("sense through %s rc=%#x" % (kind, rc),
+                              "CHECK CONDITION over %s with %d bytes of sense (response code %#x): the error reports %s, the SPC positions hold %s" % (
+                                  kind, len(b), rc, got, want), {"transport": kind, "sense": bytes(b).hex()})
+                break
+    sgio.BACKEND = None
+    iscsi.BACKEND = None
     reps = drv.batch([r[0] for r in reqs])
     for (line, impl, want), rep in zip(reqs, reps):
         # model reply: ok triple=T std=S str=…
